@@ -663,7 +663,8 @@ class VizierServicer(vizier_service_pb2_grpc.VizierServiceServicer):
       )
       grpc_util.handle_exception(e, context)
 
-    self.datastore.delete_trial(request.name)
+    with self._study_name_to_lock[study_name]:
+      self.datastore.delete_trial(request.name)
     return empty_pb2.Empty()
 
   # TODO: This currently uses the same algorithm as suggestion.
@@ -1007,14 +1008,17 @@ class VizierServicer(vizier_service_pb2_grpc.VizierServiceServicer):
       )
       grpc_util.handle_exception(e, context)
 
-    try:
-      self.datastore.update_metadata(
-          request.name,
-          [x.metadatum for x in request.delta if not x.HasField('trial_id')],
-          [x for x in request.delta if x.HasField('trial_id')],
-      )
-    except KeyError as e:
-      return vizier_service_pb2.UpdateMetadataResponse(
-          error_details=';'.join(e.args)
-      )
+    # Trial and study edits elsewhere are read-modify-write sequences under this
+    # lock; without it, they could overwrite the metadata written here.
+    with self._study_name_to_lock[request.name]:
+      try:
+        self.datastore.update_metadata(
+            request.name,
+            [x.metadatum for x in request.delta if not x.HasField('trial_id')],
+            [x for x in request.delta if x.HasField('trial_id')],
+        )
+      except KeyError as e:
+        return vizier_service_pb2.UpdateMetadataResponse(
+            error_details=';'.join(e.args)
+        )
     return vizier_service_pb2.UpdateMetadataResponse()
